@@ -613,7 +613,8 @@ PROPS = {
     ),
     "C12": dict(
         theorems=[T + "bind_eq_pyCall", T + "validated_bind_never_missing", T + "pyCall_of_valid", T + "renderPassage_in_graph", T + "tokenKinds_covered",
-                  T + "wfAll_offered_target_exists", T + "wfAll_jump_target_exists", T + "compileStory_keys", T + "compileStory_initial"],
+                  T + "wfAll_offered_target_exists", T + "wfAll_jump_target_exists", T + "compileStory_keys", T + "compileStory_initial",
+                  "Bardic.Parser.parseStory_wf", "Bardic.Parser.parseStory_choice_targets", "Bardic.Parser.coreLoop_keys"],
         run=run_c12,
         rule="every story the real compiler accepts among generated sources (45 % with one call site corrupted: unknown "
              "target, surplus / unknown / missing / duplicate argument, at top level or nested in a block) and the "
@@ -624,7 +625,12 @@ PROPS = {
                    "targets a play can reach are statically visible sites (renderPassage_in_graph); wfAll_offered_target_exists / "
                    "wfAll_jump_target_exists — in a story whose call sites at EVERY depth are valid, every choice a passage can "
                    "ever offer and every jump a rendering reports names an existing passage (or is -> @join), for every state and "
-                   "author code; compileStory_keys / _initial (keys = ids, the initial passage exists); sites nested in blocks "
+                   "author code; compileStory_keys / _initial (keys = ids, the initial passage exists); parseStory_wf / "
+                   "parseStory_choice_targets on the TEXT-LEVEL parser model — every story parse() returns, for any text and any "
+                   "behaviour of CPython's parser, keys each passage by its own id (coreLoop_keys, an invariant of the line "
+                   "classifier), names an existing initial passage (@start, else Start, else the first) that has no parameter "
+                   "without default, and passed the argument validator on every top-level choice and jump, whose targets are "
+                   "therefore @join or defined passages; sites nested in blocks "
                    "are not validated by the compiler — recorded finding C12-F1 — so the navigation-safety clause is decided "
                    "by the oracle, which accepts exactly that class",
     ),
